@@ -1,2 +1,8 @@
+/-
+  Umbrella for property C03: sign laws (C03), the graded refinement of the contraction, matrix
+  product and trace (C03b), and the graded form of the single-array einsum proved next to the
+  lazy-sign lemmas (Props/C09b: `C09.einsumF_refines_graded`).
+-/
 import SymmModel.Props.C03
 import SymmModel.Props.C03b
+import SymmModel.Props.C09b
